@@ -52,4 +52,7 @@ CASES = [
      "edits": [("backends/fockbackend/backend.py", '        remapped_modes = self._remap_modes(modes)\n        if isinstance(remapped_modes, int):\n            remapped_modes = [remapped_modes]\n        self.circuit.dealloc(remapped_modes)\n        self._modemap.delete(modes)\n', '        if isinstance(modes, int):\n            modes = [modes]\n        for m in modes:\n            self.circuit.dealloc([self._remap_modes(m)])\n            self._modemap.delete([m])\n')]},
     {"id": "del-mode-stale-positions", "expect": "fire", "key": "C08.remap",
      "edits": [("backends/fockbackend/backend.py", '        remapped_modes = self._remap_modes(modes)\n        if isinstance(remapped_modes, int):\n            remapped_modes = [remapped_modes]\n        self.circuit.dealloc(remapped_modes)\n        self._modemap.delete(modes)\n', '        if isinstance(modes, int):\n            modes = [modes]\n        for pos in self._remap_modes(modes):\n            self.circuit.dealloc([pos])\n        self._modemap.delete(modes)\n')]},
+    {"id": "bosonic-state-sorted-selection", "expect": "fire", "key": "C08.state-index",
+     "edits": [("backends/bosonicbackend/backend.py", "        mode_ind = np.array([[2 * m, 2 * m + 1] for m in modes]).flatten()\n",
+                "        mode_ind = np.sort(np.append(2 * np.array(modes), 2 * np.array(modes) + 1))\n")]},
 ]
